@@ -42,7 +42,7 @@ MaxStream == 48
 MCInit ==
     /\ cfg = MCCfg /\ tcb = EmptyFn /\ ck = InitCk /\ ckx = {}
     /\ viol = {} /\ kf = {} /\ last = "init" /\ groups = EmptyFn /\ pairs = EmptyFn
-    /\ byck = EmptyFn /\ coll = EmptyFn
+    /\ byck = EmptyFn /\ coll = EmptyFn /\ fmt = {}
     /\ hist = << >>
 
 (* frame conditions, C08 / C09: a step changes at most the control block of the frame's  *)
